@@ -17,6 +17,10 @@ impl<T> BTreeSet<T> {
     pub fn insert(&mut self, x: T) -> (r: bool) ensures final(self).s@ == old(self).s@.insert(x), { unimplemented!() }
     #[verifier::external_body]
     pub fn contains(&self, x: &T) -> (r: bool) ensures r == self.s@.contains(*x), { unimplemented!() }
+    #[verifier::external_body]
+    pub fn clear(&mut self) ensures final(self).s@ == Set::<T>::empty(), { unimplemented!() }
+    #[verifier::external_body]
+    pub fn remove(&mut self, x: &T) -> (r: bool) ensures final(self).s@ == old(self).s@.remove(*x), { unimplemented!() }
 }
 
 pub struct IndexFile { pub _opaque: u64 }
